@@ -820,6 +820,20 @@ def translate_class(spec):
     cls = ClassInfo(mod, spec["cls"], spec)
     results, defs = [], []
     used = set()
+    # module-level functions of the same file that translate.py translates (SRC tables) and the methods call
+    imports = []
+    if spec.get("uses"):
+        tr.load_tables()
+    for lean_mod, func in spec.get("uses", []):
+        src = [x for x in tr.SRC if x["lean"] == lean_mod and x["func"] == func and x["file"] == spec["file"]
+               and "prefix_upto" not in x and "from_var" not in x]
+        if len(src) != 1:
+            raise TranslationError("%s: `uses` names %s.%s, which is not (exactly once) in the SRC tables for this file" % (
+                mod.relpath, lean_mod, func))
+        name, _ = tr.translate_function(mod, src[0])
+        mod.funcs[func] = dict(mod.funcs[func], lean="Gen.Src.%s.%s" % (lean_mod, name))
+        if "Acra.Gen.Src." + lean_mod not in imports:
+            imports.append("Acra.Gen.Src." + lean_mod)
     for m in spec["methods"]:
         node = cls.methods.get(m["func"])
         if node is not None:
@@ -846,7 +860,7 @@ def translate_class(spec):
             results.append((m, False, repr(e)))
     ns = "Acra.Gen.Src.Cls.%s" % spec["lean"]
     lines = ["-- GENERATED by harness/translate_methods.py from %s (class %s) — do not edit" % (spec["file"], spec["cls"]),
-             "import Acra.Py.MethOps",
+             "import Acra.Py.MethOps"] + ["import " + i for i in imports] + [
              "namespace %s" % ns,
              "open Acra Acra.Py",
              "set_option linter.unusedVariables false", ""]
